@@ -120,8 +120,8 @@ func (l *Lexer) scanToken() error {
 		}
 	case '/':
 		if l.match('/') {
-			// Line comment
-			for l.peek() != '\n' && !l.isAtEnd() {
+			// Line comment: ends at any WGSL line break (LF, VT, FF, CR, NEL, LS, PS).
+			for !isLineBreak(l.peek()) && !l.isAtEnd() {
 				l.advance()
 			}
 		} else if l.match('*') {
@@ -186,8 +186,8 @@ func (l *Lexer) scanToken() error {
 		}
 
 	// Whitespace
-	case ' ', '\r', '\t':
-		// Ignore whitespace
+	case ' ', '\r', '\t', '\v', '\f', 0x85, 0x200E, 0x200F, 0x2028, 0x2029:
+		// Ignore blankspace (WGSL: space, tab, VT, FF, CR, NEL, LRM, RLM, LS, PS)
 	case '\n':
 		l.line++
 		l.column = 1
@@ -462,6 +462,15 @@ func (l *Lexer) match(expected rune) bool {
 
 func (l *Lexer) isAtEnd() bool {
 	return l.pos >= len(l.source)
+}
+
+// isLineBreak reports whether r ends a line comment (WGSL line_break).
+func isLineBreak(r rune) bool {
+	switch r {
+	case '\n', '\v', '\f', '\r', 0x85, 0x2028, 0x2029:
+		return true
+	}
+	return false
 }
 
 func isDigit(r rune) bool {
